@@ -29,6 +29,9 @@ StrCases ==
     {[fam |-> "str", x |-> VS(s), e |-> e] : s \in Strs(MaxStr),
         e \in {F("reverse", F("reverse", X)), F("length", X), F("length", F("reverse", X)),
                F("first", X), F("last", X)}}
+\* strings that are not valid UTF-8 (negative code: that byte): reverse is still an involution that keeps the length
+RawStrs == {t \in UNION {[1..k -> {97, -255, -128, 233}] : k \in 1..3} : \E i \in 1..Len(t) : t[i] < 0}
+RawStrCases == {[fam |-> "str", x |-> VS(s), e |-> e] : s \in RawStrs, e \in {F("reverse", F("reverse", X)), F("length", X), F("length", F("reverse", X))}}
 \* upper / lower / trim / capitalize: the property states idempotence only, so the check
 \* is the relation F(F(x)) = F(x) between two real renders (no reference value)
 \* (letters whose other case is encoded in fewer or more bytes: Kelvin sign -> k, U+023A <-> U+2C65, long s -> S, dotless i -> I)
@@ -114,7 +117,7 @@ Zeros == {VI(0), VD(0, 0), VN(VD(0, 0), "def")} \cup {VN(VI(0), k) : k \in NumKi
 \* fractions that share their integer part, in lists of float element types
 FracList == <<VD(25, 1), VD(225, 2), VD(-5, 1), VD(75, 2), VD(-25, 2)>>
 FracLists == {VLg(FracList, g) : g \in {"f32s", "f64s"}} \cup {VL(FracList), VL([i \in 1..Len(FracList) |-> VN(FracList[i], "f32")])}
-KindCases == {[fam |-> "kinds", what |-> w] : w \in {"sort", "sortfrac", "zero", "zerocomputed"}}
+KindCases == {[fam |-> "kinds", what |-> w] : w \in {"sort", "sortfrac", "sortbig", "bigint", "zero", "zerocomputed"}}
 KindCaseOf(c) ==
     IF c.what = "sort" THEN
         [prop |-> "C19", key |-> ToJson(c), tags |-> {"fam:kinds", "f:sort"}, entry |-> "main", ctx |-> EmptyFn,
@@ -122,6 +125,41 @@ KindCaseOf(c) ==
                                                                      Text(<<124>>), PrintS(F("last", F("sort", X)))>>, LMin)),
                     xcalls |-> [id \in {} |-> 0], ctx |-> ("x" :> v)] : v \in KindLists},
          expect |-> [ok |-> TRUE, out |-> <<49, 44, 51, 44, 50, 48, 124, 49, 124, 50, 48>>, err |-> "", calls |-> [id \in {} |-> 0]]]
+    ELSE IF c.what = "bigint" THEN
+        \* integers beyond 2^53 (what a float64 holds exactly) and a number of places beyond every float: the expectations
+        \* are written down digit by digit (TLC's integers end at 2^31)
+        [prop |-> "C19", key |-> ToJson(c), tags |-> {"fam:kinds", "f:abs", "f:round", "f:number_format", "bigint"}, entry |-> "main", ctx |-> EmptyFn,
+         runs |-> {[label |-> "abs/p53", tp |-> ("main" :> Source(<<PrintS(F("abs", X))>>, LMin)), xcalls |-> [id \in {} |-> 0], ctx |-> ("x" :> VBig(<<57, 48, 48, 55, 49, 57, 57, 50, 53, 52, 55, 52, 48, 57, 57, 51>>)), out |-> <<57, 48, 48, 55, 49, 57, 57, 50, 53, 52, 55, 52, 48, 57, 57, 51>>],
+                   [label |-> "round/p53", tp |-> ("main" :> Source(<<PrintS(F("round", X))>>, LMin)), xcalls |-> [id \in {} |-> 0], ctx |-> ("x" :> VBig(<<57, 48, 48, 55, 49, 57, 57, 50, 53, 52, 55, 52, 48, 57, 57, 51>>)), out |-> <<57, 48, 48, 55, 49, 57, 57, 50, 53, 52, 55, 52, 48, 57, 57, 51>>],
+                   [label |-> "nf/p53", tp |-> ("main" :> Source(<<PrintS(F("number_format", X))>>, LMin)), xcalls |-> [id \in {} |-> 0], ctx |-> ("x" :> VBig(<<57, 48, 48, 55, 49, 57, 57, 50, 53, 52, 55, 52, 48, 57, 57, 51>>)), out |-> <<57, 44, 48, 48, 55, 44, 49, 57, 57, 44, 50, 53, 52, 44, 55, 52, 48, 44, 57, 57, 51>>],
+                   [label |-> "nfsp/p53", tp |-> ("main" :> Source(<<PrintS(FA("number_format", X, <<LI(0), LS(<<46>>), LS(<<32>>)>>))>>, LMin)), xcalls |-> [id \in {} |-> 0], ctx |-> ("x" :> VBig(<<57, 48, 48, 55, 49, 57, 57, 50, 53, 52, 55, 52, 48, 57, 57, 51>>)), out |-> <<57, 32, 48, 48, 55, 32, 49, 57, 57, 32, 50, 53, 52, 32, 55, 52, 48, 32, 57, 57, 51>>],
+                   [label |-> "absneg/p53", tp |-> ("main" :> Source(<<PrintS(F("abs", X))>>, LMin)), xcalls |-> [id \in {} |-> 0], ctx |-> ("x" :> VBig(<<45, 57, 48, 48, 55, 49, 57, 57, 50, 53, 52, 55, 52, 48, 57, 57, 51>>)), out |-> <<57, 48, 48, 55, 49, 57, 57, 50, 53, 52, 55, 52, 48, 57, 57, 51>>],
+                   [label |-> "nfneg/p53", tp |-> ("main" :> Source(<<PrintS(F("number_format", X))>>, LMin)), xcalls |-> [id \in {} |-> 0], ctx |-> ("x" :> VBig(<<45, 57, 48, 48, 55, 49, 57, 57, 50, 53, 52, 55, 52, 48, 57, 57, 51>>)), out |-> <<45, 57, 44, 48, 48, 55, 44, 49, 57, 57, 44, 50, 53, 52, 44, 55, 52, 48, 44, 57, 57, 51>>],
+                   [label |-> "abs/max", tp |-> ("main" :> Source(<<PrintS(F("abs", X))>>, LMin)), xcalls |-> [id \in {} |-> 0], ctx |-> ("x" :> VBig(<<57, 50, 50, 51, 51, 55, 50, 48, 51, 54, 56, 53, 52, 55, 55, 53, 56, 48, 55>>)), out |-> <<57, 50, 50, 51, 51, 55, 50, 48, 51, 54, 56, 53, 52, 55, 55, 53, 56, 48, 55>>],
+                   [label |-> "round/max", tp |-> ("main" :> Source(<<PrintS(F("round", X))>>, LMin)), xcalls |-> [id \in {} |-> 0], ctx |-> ("x" :> VBig(<<57, 50, 50, 51, 51, 55, 50, 48, 51, 54, 56, 53, 52, 55, 55, 53, 56, 48, 55>>)), out |-> <<57, 50, 50, 51, 51, 55, 50, 48, 51, 54, 56, 53, 52, 55, 55, 53, 56, 48, 55>>],
+                   [label |-> "nf/max", tp |-> ("main" :> Source(<<PrintS(F("number_format", X))>>, LMin)), xcalls |-> [id \in {} |-> 0], ctx |-> ("x" :> VBig(<<57, 50, 50, 51, 51, 55, 50, 48, 51, 54, 56, 53, 52, 55, 55, 53, 56, 48, 55>>)), out |-> <<57, 44, 50, 50, 51, 44, 51, 55, 50, 44, 48, 51, 54, 44, 56, 53, 52, 44, 55, 55, 53, 44, 56, 48, 55>>],
+                   [label |-> "nfsp/max", tp |-> ("main" :> Source(<<PrintS(FA("number_format", X, <<LI(0), LS(<<46>>), LS(<<32>>)>>))>>, LMin)), xcalls |-> [id \in {} |-> 0], ctx |-> ("x" :> VBig(<<57, 50, 50, 51, 51, 55, 50, 48, 51, 54, 56, 53, 52, 55, 55, 53, 56, 48, 55>>)), out |-> <<57, 32, 50, 50, 51, 32, 51, 55, 50, 32, 48, 51, 54, 32, 56, 53, 52, 32, 55, 55, 53, 32, 56, 48, 55>>],
+                   [label |-> "absneg/max", tp |-> ("main" :> Source(<<PrintS(F("abs", X))>>, LMin)), xcalls |-> [id \in {} |-> 0], ctx |-> ("x" :> VBig(<<45, 57, 50, 50, 51, 51, 55, 50, 48, 51, 54, 56, 53, 52, 55, 55, 53, 56, 48, 55>>)), out |-> <<57, 50, 50, 51, 51, 55, 50, 48, 51, 54, 56, 53, 52, 55, 55, 53, 56, 48, 55>>],
+                   [label |-> "nfneg/max", tp |-> ("main" :> Source(<<PrintS(F("number_format", X))>>, LMin)), xcalls |-> [id \in {} |-> 0], ctx |-> ("x" :> VBig(<<45, 57, 50, 50, 51, 51, 55, 50, 48, 51, 54, 56, 53, 52, 55, 55, 53, 56, 48, 55>>)), out |-> <<45, 57, 44, 50, 50, 51, 44, 51, 55, 50, 44, 48, 51, 54, 44, 56, 53, 52, 44, 55, 55, 53, 44, 56, 48, 55>>],
+                   [label |-> "abs/p53b", tp |-> ("main" :> Source(<<PrintS(F("abs", X))>>, LMin)), xcalls |-> [id \in {} |-> 0], ctx |-> ("x" :> VBig(<<57, 48, 48, 55, 49, 57, 57, 50, 53, 52, 55, 52, 48, 57, 57, 53>>)), out |-> <<57, 48, 48, 55, 49, 57, 57, 50, 53, 52, 55, 52, 48, 57, 57, 53>>],
+                   [label |-> "round/p53b", tp |-> ("main" :> Source(<<PrintS(F("round", X))>>, LMin)), xcalls |-> [id \in {} |-> 0], ctx |-> ("x" :> VBig(<<57, 48, 48, 55, 49, 57, 57, 50, 53, 52, 55, 52, 48, 57, 57, 53>>)), out |-> <<57, 48, 48, 55, 49, 57, 57, 50, 53, 52, 55, 52, 48, 57, 57, 53>>],
+                   [label |-> "nf/p53b", tp |-> ("main" :> Source(<<PrintS(F("number_format", X))>>, LMin)), xcalls |-> [id \in {} |-> 0], ctx |-> ("x" :> VBig(<<57, 48, 48, 55, 49, 57, 57, 50, 53, 52, 55, 52, 48, 57, 57, 53>>)), out |-> <<57, 44, 48, 48, 55, 44, 49, 57, 57, 44, 50, 53, 52, 44, 55, 52, 48, 44, 57, 57, 53>>],
+                   [label |-> "nfsp/p53b", tp |-> ("main" :> Source(<<PrintS(FA("number_format", X, <<LI(0), LS(<<46>>), LS(<<32>>)>>))>>, LMin)), xcalls |-> [id \in {} |-> 0], ctx |-> ("x" :> VBig(<<57, 48, 48, 55, 49, 57, 57, 50, 53, 52, 55, 52, 48, 57, 57, 53>>)), out |-> <<57, 32, 48, 48, 55, 32, 49, 57, 57, 32, 50, 53, 52, 32, 55, 52, 48, 32, 57, 57, 53>>],
+                   [label |-> "absneg/p53b", tp |-> ("main" :> Source(<<PrintS(F("abs", X))>>, LMin)), xcalls |-> [id \in {} |-> 0], ctx |-> ("x" :> VBig(<<45, 57, 48, 48, 55, 49, 57, 57, 50, 53, 52, 55, 52, 48, 57, 57, 53>>)), out |-> <<57, 48, 48, 55, 49, 57, 57, 50, 53, 52, 55, 52, 48, 57, 57, 53>>],
+                   [label |-> "nfneg/p53b", tp |-> ("main" :> Source(<<PrintS(F("number_format", X))>>, LMin)), xcalls |-> [id \in {} |-> 0], ctx |-> ("x" :> VBig(<<45, 57, 48, 48, 55, 49, 57, 57, 50, 53, 52, 55, 52, 48, 57, 57, 53>>)), out |-> <<45, 57, 44, 48, 48, 55, 44, 49, 57, 57, 44, 50, 53, 52, 44, 55, 52, 48, 44, 57, 57, 53>>],
+                   [label |-> "abs/min", tp |-> ("main" :> Source(<<PrintS(F("abs", X))>>, LMin)), xcalls |-> [id \in {} |-> 0], ctx |-> ("x" :> VBig(<<45, 57, 50, 50, 51, 51, 55, 50, 48, 51, 54, 56, 53, 52, 55, 55, 53, 56, 48, 56>>)), out |-> <<57, 50, 50, 51, 51, 55, 50, 48, 51, 54, 56, 53, 52, 55, 55, 53, 56, 48, 56>>],
+                   [label |-> "round400", tp |-> ("main" :> Source(<<PrintS(FA("round", X, <<LI(400)>>))>>, LMin)), xcalls |-> [id \in {} |-> 0], ctx |-> ("x" :> VD(12345678, 4)), out |-> <<49, 50, 51, 52, 46, 53, 54, 55, 56>>],
+                   [label |-> "round40", tp |-> ("main" :> Source(<<PrintS(FA("round", X, <<LI(40)>>))>>, LMin)), xcalls |-> [id \in {} |-> 0], ctx |-> ("x" :> VD(-5, 1)), out |-> <<45, 48, 46, 53>>]},
+         expect |-> [ok |-> TRUE, out |-> <<>>, err |-> "", calls |-> [id \in {} |-> 0]]]
+    ELSE IF c.what = "sortbig" THEN
+        \* unsigned elements that a float64 cannot tell apart; a defined type over an untyped list
+        [prop |-> "C19", key |-> ToJson(c), tags |-> {"fam:kinds", "f:sort", "bigint"}, entry |-> "main", ctx |-> EmptyFn,
+         runs |-> {[label |-> "u64s", tp |-> ("main" :> Source(<<PrintS(FA("join", F("sort", X), <<LS(<<44>>)>>)), Text(<<124>>), PrintS(F("first", F("sort", X))), Text(<<124>>), PrintS(F("last", F("sort", X)))>>, LMin)),
+                     xcalls |-> [id \in {} |-> 0], ctx |-> ("x" :> VLg(<<VBig(<<49, 56, 52, 52, 54, 55, 52, 52, 48, 55, 51, 55, 48, 57, 53, 53, 49, 54, 49, 53>>), VBig(<<57, 48, 48, 55, 49, 57, 57, 50, 53, 52, 55, 52, 48, 57, 57, 51>>), VBig(<<57, 48, 48, 55, 49, 57, 57, 50, 53, 52, 55, 52, 48, 57, 57, 50>>), VI(5)>>, "u64s")),
+                     out |-> <<53, 44, 57, 48, 48, 55, 49, 57, 57, 50, 53, 52, 55, 52, 48, 57, 57, 50, 44, 57, 48, 48, 55, 49, 57, 57, 50, 53, 52, 55, 52, 48, 57, 57, 51, 44, 49, 56, 52, 52, 54, 55, 52, 52, 48, 55, 51, 55, 48, 57, 53, 53, 49, 54, 49, 53, 124, 53, 124, 49, 56, 52, 52, 54, 55, 52, 52, 48, 55, 51, 55, 48, 57, 53, 53, 49, 54, 49, 53>>],
+                    [label |-> "rows", tp |-> ("main" :> Source(<<PrintS(FA("join", F("sort", X), <<LS(<<44>>)>>)), Text(<<124>>), PrintS(F("first", F("sort", X))), Text(<<124>>), PrintS(F("last", F("sort", X)))>>, LMin)),
+                     xcalls |-> [id \in {} |-> 0], ctx |-> ("x" :> VLg(<<VI(10), VI(9), VI(100)>>, "rows")), out |-> <<57, 44, 49, 48, 44, 49, 48, 48, 124, 57, 124, 49, 48, 48>>]},
+         expect |-> [ok |-> TRUE, out |-> <<>>, err |-> "", calls |-> [id \in {} |-> 0]]]
     ELSE IF c.what = "sortfrac" THEN
         [prop |-> "C19", key |-> ToJson(c), tags |-> {"fam:kinds", "f:sort"}, entry |-> "main", ctx |-> EmptyFn,
          runs |-> {[label |-> ToJson(v), tp |-> ("main" :> Source(<<PrintS(FA("join", F("sort", X), <<LS(<<44>>)>>)), Text(<<124>>), PrintS(F("first", F("sort", X))),
@@ -156,7 +194,7 @@ Progs == [ slicebase  |-> <<Set("items", ABC), Set("m", Call("merge", <<FA("slic
            threefn    |-> <<JJ(Call("merge", <<X, X, Arr(<<LI(6)>>)>>)), Bar, JJ(Call("merge", <<Arr(<<>>), X>>)), Bar, JJ(X)>> ]
 ProgCases == {[fam |-> "prog", x |-> v, e |-> X, p |-> p] : p \in DOMAIN Progs,
                 v \in {VL(<<VI(1), VI(2), VI(3)>>), VLg(<<VI(1), VI(2), VI(3)>>, "anycap"), VLg(<<VI(1), VI(2), VI(3)>>, "ints"), VL(<<>>)}}
-AllCases == ProgCases \cup JoinSplitCases \cup NumFmtCases \cup DecCases \cup MultiMerge \cup StrCases \cup RevCases \cup IdemCases \cup ListCases \cup LoopCases \cup SliceCases \cup DefaultCases \cup MapCases \cup NumCases
+AllCases == ProgCases \cup JoinSplitCases \cup NumFmtCases \cup DecCases \cup MultiMerge \cup StrCases \cup RawStrCases \cup RevCases \cup IdemCases \cup ListCases \cup LoopCases \cup SliceCases \cup DefaultCases \cup MapCases \cup NumCases
 
 RECURSIVE UsesX(_)
 UsesX(e) == e = X \/ (e.k = "filt" /\ (UsesX(e.e) \/ \E i \in 1..Len(e.args) : UsesX(e.args[i])))
